@@ -5,6 +5,7 @@ between the TSP spec and `List.Perm (range n)`.  Core only, no Mathlib.
 import Rl4co.Env.Tsp
 import Rl4co.Spec.Tsp
 import Rl4co.Proofs.TspfamAvail
+import Rl4co.Proofs.TspfamParams
 import Rl4co.Proofs.Sort
 namespace Rl4co.Spec.Tsp
 
@@ -53,7 +54,7 @@ def availEnv : AvailEnv env where
   inv_step := fun _ _ _ _ _ _ => trivial
   mask_avail := fun _ _ _ _ h => h
   step_avail := fun _ _ _ => rfl
-  step_done := fun _ _ _ => rfl
+  step_done := fun i s a => (doneCmp_ok (cnt i.n (upd s.avail a false))).1
   reset_done := fun _ => rfl
   reset_cnt := by intro i; exact cnt_eq_n.mpr (fun _ _ => rfl)
 
